@@ -160,11 +160,30 @@ def strip_comments(src):
     return re.sub(r"--.*", "", src)
 
 
-def lean_grep_forbidden():
+def lean_import_closure(modules):
+    """Lean source files of the project reachable from the given modules through `import` lines."""
+    seen, todo = {}, list(modules)
+    while todo:
+        m = todo.pop()
+        if m in seen:
+            continue
+        path = os.path.join(LEAN, *m.split(".")) + ".lean"
+        if not os.path.exists(path):
+            continue
+        seen[m] = path
+        for imp in re.findall(r"^import\s+([A-Za-z0-9_.]+)", open(path).read(), flags=re.M):
+            if imp.startswith("GoderiveModel") or imp.startswith("Driver"):
+                todo.append(imp)
+    return seen
+
+
+def lean_grep_forbidden(modules=None):
+    """sorry / axiom / native_decide … in the sources the given modules depend on (all sources if None)."""
     hits = []
-    for f in lean_sources():
-        if os.sep + "Driver" + os.sep in f or f.endswith("Wire.lean"):
-            # the driver and the wire parser use `partial` IO loops / parsers; they are not proofs
+    files = sorted(lean_import_closure(modules).values()) if modules else lean_sources()
+    for f in files:
+        if os.sep + "Driver" + os.sep in f or f.endswith("Wire.lean") or f.endswith("Canon.lean"):
+            # the driver, the wire parser and the canonical printer use `partial` IO loops / parsers; they are not proofs
             continue
         body = strip_comments(open(f).read())
         for i, line in enumerate(body.splitlines(), 1):
@@ -181,13 +200,36 @@ def lean_build(targets=None):
         return p.returncode == 0, (p.stdout + p.stderr)
 
 
+def prop_modules(prop):
+    """Props/<prop>.lean plus continuation files Props/<prop>b.lean, … (module names)."""
+    d = os.path.join(LEAN, "GoderiveModel", "Props")
+    out = []
+    if os.path.isdir(d):
+        for f in sorted(os.listdir(d)):
+            if re.fullmatch(re.escape(prop) + r"[a-z]?\.lean", f):
+                out.append("GoderiveModel.Props." + f[:-5])
+    return out
+
+
 def prop_theorems(prop):
-    """Theorem names declared in Props/<prop>.lean (namespace Goderive.<prop>)."""
-    path = os.path.join(LEAN, "GoderiveModel", "Props", prop + ".lean")
-    if not os.path.exists(path):
-        return []
-    body = strip_comments(open(path).read())
-    return re.findall(r"^\s*theorem\s+([A-Za-z0-9_'.]+)", body, flags=re.M)
+    """Fully qualified names of the theorems declared in the property's Props files."""
+    names = []
+    for m in prop_modules(prop):
+        body = strip_comments(open(os.path.join(LEAN, *m.split(".")) + ".lean").read())
+        ns = []
+        for line in body.splitlines():
+            mm = re.match(r"\s*namespace\s+([A-Za-z0-9_.]+)", line)
+            if mm:
+                ns.append(mm.group(1))
+                continue
+            mm = re.match(r"\s*end\s+([A-Za-z0-9_.]+)\s*$", line)
+            if mm and ns and ns[-1].split(".")[-1] == mm.group(1).split(".")[-1]:
+                ns.pop()
+                continue
+            mm = re.match(r"\s*(?:protected\s+)?theorem\s+([A-Za-z0-9_'.]+)", line)
+            if mm:
+                names.append(".".join(ns + [mm.group(1)]))
+    return names
 
 
 def lean_audit(prop):
@@ -196,9 +238,9 @@ def lean_audit(prop):
     if not names:
         return {}
     os.makedirs(os.path.join(WORK, "audit"), exist_ok=True)
-    src = "import GoderiveModel.Props.%s\n" % prop
+    src = "".join("import %s\n" % m for m in prop_modules(prop))
     for n in names:
-        src += "#print axioms Goderive.%s.%s\n" % (prop, n)
+        src += "#print axioms %s\n" % n
     path = os.path.join(WORK, "audit", prop + ".lean")
     with open(path, "w") as f:
         f.write(src)
@@ -206,10 +248,12 @@ def lean_audit(prop):
         p = sh(["lake", "env", "lean", path], cwd=LEAN, env=dict(os.environ), timeout=1800)
     out = p.stdout + p.stderr
     res = {n: None for n in names}
-    for m in re.finditer(r"'Goderive\.%s\.([^']+)' depends on axioms: \[([^\]]*)\]" % prop, out, flags=re.S):
-        res[m.group(1)] = [a.strip() for a in m.group(2).replace("\n", " ").split(",") if a.strip()]
-    for m in re.finditer(r"'Goderive\.%s\.([^']+)' does not depend on any axioms" % prop, out):
-        res[m.group(1)] = []
+    for m in re.finditer(r"'([^']+)' depends on axioms: \[([^\]]*)\]", out, flags=re.S):
+        if m.group(1) in res:
+            res[m.group(1)] = [a.strip() for a in m.group(2).replace("\n", " ").split(",") if a.strip()]
+    for m in re.finditer(r"'([^']+)' does not depend on any axioms", out):
+        if m.group(1) in res:
+            res[m.group(1)] = []
     return res
 
 
@@ -289,8 +333,9 @@ TRUSTED_COMMON = [
 def proof_part(rep, prop, thorough_checker=False):
     """Builds the Lean project, audits the property's theorems. Records obligations/discharged.
     A failing build or a bad axiom is a violation without failing input (the caller may then search)."""
-    hits = lean_grep_forbidden()
-    ok, log = lean_build(["GoderiveModel.Props." + prop, "driver"])
+    mods = prop_modules(prop)
+    hits = lean_grep_forbidden(mods) if mods else []
+    ok, log = lean_build(mods + ["driver"])
     names = prop_theorems(prop)
     rep.cov["checker_cmd"] = "cd lean && lake build GoderiveModel.Props.%s driver && lake env lean .work/audit/%s.lean  # #print axioms of every theorem in Props/%s.lean" % (prop, prop, prop)
     rep.cov["trusted_base"] = list(TRUSTED_COMMON)
@@ -319,7 +364,10 @@ def proof_part(rep, prop, thorough_checker=False):
             good += 1
     rep.cov["discharged"] = good
     if thorough_checker:
-        okc, logc = leanchecker("GoderiveModel.Props." + prop)
+        okc, logc = True, ""
+        for m in mods:
+            o, l = leanchecker(m)
+            okc, logc = okc and o, logc + l
         rep.cov["leanchecker"] = "ok" if okc else logc
         rep.cov["checker_cmd"] += " && lake env leanchecker GoderiveModel.Props." + prop
         if not okc:
